@@ -15,8 +15,11 @@ package api
 //@ extern multiaddr.Multiaddr.Equal(o)
 //@   ensures res == maEqual(self, o)
 
+// lastOptsEq: what the options comparison last answered (call-history ghost)
+//@ ghost var lastOptsEq bool
 //@ func (po *PinOptions) Equals
 //@   property C04 C08
+//@   records lastOptsEq = res
 //@   ensures [equal-options] res ==> po != nil && po2 != nil && optsEq(*po, *po2)
 //@   loop 1 (range po.Metadata)
 //@     invariant forall k string :: in(k, seen1) && k != "" ==> po.Metadata[k] == po2.Metadata[k]
@@ -207,7 +210,7 @@ package api
 //@ func (pin *Pin) Equals
 //@   property C08 C04
 //@   ensures [equal-pins-agree] res ==> pin != nil && pin2 != nil && pin.Cid == pin2.Cid && pin.Type == pin2.Type && pin.MaxDepth == pin2.MaxDepth && (pin.Reference == nil <==> pin2.Reference == nil) && (pin.Reference != nil ==> *pin.Reference == *pin2.Reference) && optsEq(pin.PinOptions, pin2.PinOptions)
-//@   modifies nothing
+//@   modifies lastOptsEq
 
 // ---- text forms of the pin type and pin mode (JSON form of the REST API, query strings): function against spec
 // function, and the two spec functions are inverse on every defined value ----
